@@ -4073,6 +4073,15 @@ func (a *Association) getDataPacketsToRetransmit(budgetScaled *int64, consumed *
 			continue
 		}
 
+		if chunkPayload.abandoned() {
+			// Marked before its message was given up (for instance fast-retransmitted
+			// in the meantime, which does not clear the mark): an abandoned chunk is
+			// covered by FORWARD-TSN and must not be put on the wire again.
+			chunkPayload.retransmit = false
+
+			continue
+		}
+
 		if i == 0 && int(a.RWND()) < len(chunkPayload.userData) {
 			// allow as zero window probe
 		} else if bytesToSend+len(chunkPayload.userData) > int(awnd) {
